@@ -1,5 +1,5 @@
 (* Props_C12.v — C12: a probe succeeds only on genuine evidence; indirect probing is routed correctly. *)
-From Foca Require Import Laws MembersM ProbeM FocaM WireM L_Members L_MembersInv Inv L_Wire L_Probe L_RoundEnd L_IndirectStage L_RoundSuspect.
+From Foca Require Import Laws MembersM ProbeM FocaM WireM L_Members L_MembersInv Inv L_Wire L_Probe L_RoundEnd L_IndirectStage L_RoundSuspect L_Evidence.
 From Coq Require Import Permutation.
 
 Section C12.
@@ -167,6 +167,50 @@ Theorem C12_failed_target_becomes_suspect (ms : @members Id) (x : Id) (i : N) (k
     /\ is_active_now sm = true.
 Proof. exact (suspect_applies ms x i k). Qed.
 
+(* EVIDENCE OVER INTERLEAVINGS.  ev p: the current round has evidence (a direct Ack or a counted
+   ForwardedAck), or there is no round.  An Ack / ForwardedAck with the current number from the right
+   member establishes it; EVERY call other than the live ProbeRandomMember timer keeps it - datagrams of
+   any kind, stale and forged timers, the SendIndirectProbe timer, every API call, in any order and
+   number; and the live ProbeRandomMember timer that finds it schedules no suspicion timeout and leaves
+   the member list alone.  So evidence arriving at any moment before the round ends prevents the
+   suspicion - whatever else is interleaved. *)
+Theorem C12_evidence_terms (p : probe Id) :
+  ev p <-> (probe_succeeded p = true \/ p_direct p = None).
+Proof. reflexivity. Qed.
+
+Theorem C12_ack_is_evidence (p : probe Id) (from : Id) (n : N) :
+  n = p_number p -> probe_is_probing p from = true -> ev (fst (probe_receive_ack p from n)).
+Proof. exact (ack_is_evidence p from n). Qed.
+
+Theorem C12_forwarded_ack_is_evidence (p : probe Id) (from : Id) (n : N) (pos : nat) :
+  p_number p = n -> find_index (fun i => id_eqb i from) (p_indirect p) = Some pos ->
+  ev (fst (probe_receive_indirect_ack p from n)).
+Proof. exact (forwarded_ack_is_evidence p from n pos). Qed.
+
+Theorem C12_evidence_survives_every_other_call (rnd : oracle) (f : @foca Id Addr HO) (i : @input Id) :
+  match i with ITimer (TProbeRandomMember k) => ~ (k = token f /\ conn f = Connected) | _ => True end ->
+  ev (prb f) -> ev (prb (fst (fst (fst (step rnd f i))))).
+Proof. exact (step_keeps_evidence rnd f i). Qed.
+
+Theorem C12_evidence_survives_histories (rnd : oracle) (l : list (@input Id)) (f : @foca Id Addr HO) :
+  no_live_probe rnd f l -> ev (prb f) -> ev (prb (run_calls rnd f l)).
+Proof. exact (history_keeps_evidence rnd l f). Qed.
+
+Theorem C12_history_terms (rnd : oracle) (f : @foca Id Addr HO) (i : @input Id) (l : list (@input Id)) :
+  run_calls rnd f [] = f
+  /\ run_calls rnd f (i :: l) = run_calls rnd (fst (fst (fst (step rnd f i)))) l
+  /\ (no_live_probe rnd f [] <-> True)
+  /\ (no_live_probe rnd f (i :: l) <->
+      (match i with ITimer (TProbeRandomMember k) => ~ (k = token f /\ conn f = Connected) | _ => True end)
+      /\ no_live_probe rnd (fst (fst (fst (step rnd f i)))) l).
+Proof. split; [reflexivity|]. split; [reflexivity|]. split; reflexivity. Qed.
+
+Theorem C12_round_with_evidence_ends_quietly (rnd : oracle) (f : @foca Id Addr HO) :
+  conn f = Connected -> ev (prb f) ->
+  let '(f', es, _, _) := step rnd f (ITimer (TProbeRandomMember (token f))) in
+  cstd_of es = [] /\ Permutation (inner (mems f')) (inner (mems f)).
+Proof. exact (round_with_evidence_ends_quietly rnd f). Qed.
+
 End C12.
 
 Print Assumptions C12_direct_evidence.
@@ -185,3 +229,10 @@ Print Assumptions C12_indirect_stage.
 Print Assumptions C12_pingreq_to_meaning.
 Print Assumptions C12_round_end_members.
 Print Assumptions C12_failed_target_becomes_suspect.
+Print Assumptions C12_evidence_terms.
+Print Assumptions C12_ack_is_evidence.
+Print Assumptions C12_forwarded_ack_is_evidence.
+Print Assumptions C12_evidence_survives_every_other_call.
+Print Assumptions C12_evidence_survives_histories.
+Print Assumptions C12_history_terms.
+Print Assumptions C12_round_with_evidence_ends_quietly.
